@@ -268,7 +268,10 @@ fn expect(pre: &MObj, steps: &[AttributeSelectorStep], action: &AttributeAction,
             Some(ME { val: MV::Pix(bot, frags), vr }) => {
                 let mut f = frags.clone();
                 f.truncate(*n);
-                set_to(&mut ok, &cur, Some(ME { vr: *vr, val: MV::Pix(bot.clone(), f) }));
+                set_to(&mut ok, &cur, Some(ME { vr: *vr, val: MV::Pix(bot.clone(), f.clone()) }));
+                // a fragment sequence kept under another VR (after SetVr) may be normalised to OB
+                // when the element is rebuilt (same latitude as UN -> SQ above)
+                set_to(&mut ok, &cur, Some(ME { vr: VR::OB, val: MV::Pix(bot.clone(), f) }));
                 ok.push(unchanged);
             }
         },
